@@ -692,7 +692,8 @@ class _function(object):
                 f._constant = matrix(0.0, (len(self),1))
                 return f
 
-            if len(self._constant) != 1 or self._constant[0]:
+            if len(self._constant) != 1 or self._constant[0] or \
+                not self._linear._coeff:
                 # skip if self._constant is zero
                 f._constant = self._constant*other
 
@@ -745,7 +746,8 @@ class _function(object):
                 f._constant = matrix(0.0, (len(self),1))
                 return f
 
-            if len(self._constant) != 1 or self._constant[0]:
+            if len(self._constant) != 1 or self._constant[0] or \
+                not self._linear._coeff:
                 if 1 == len(self._constant) != lg and \
                     not _isscalar(other):
                     f._constant = other * self._constant[lg*[0]]
